@@ -82,10 +82,14 @@ RecVerdict(r, ln) ==
 Conforms(r) == \/ r.pred = "none"
                \/ r.crash \/ r.panic
                \/ (r.pred = "accept") = r.ok
+\* a variable whose name merely continues the name of a scalar parameter (MTX_READTIMEOUT_X) addresses nothing
+\* in the documented grammar; sfxLeaf marks such cases, same = the load gave the configuration it gives without it
+SuffixIgnored(r) == (r.sfxLeaf /\ r.ok /\ r.compared) => r.same
 OtherTimeoutsPositive(r) == r.ok => \A i \in 1..Len(r.conf.otherTimeouts) : Pos(r.conf.otherTimeouts[i].v)
 
 Verdicts == l >= 1 => RecVerdict(Trace[l], l)
 Drift    == l >= 1 => /\ (Conforms(Trace[l]) \/ Emit("DRIFT", [l |-> l, id |-> Trace[l].id, what |-> "layer1"]))
                       /\ (OtherTimeoutsPositive(Trace[l]) \/ Emit("DRIFT", [l |-> l, id |-> Trace[l].id, what |-> "otherTimeout"]))
+                      /\ (SuffixIgnored(Trace[l]) \/ Emit("DRIFT", [l |-> l, id |-> Trace[l].id, what |-> "suffixChangedConf"]))
 Accepted == TLCGet("stats").diameter - 1 = Len(Trace)
 =============================================================================
